@@ -193,4 +193,19 @@ CHECKS = {
                 "unrecognised-START path.",
         "assumptions": COMMON_ASSUME + ["passwords typed at the user-name prompt are not 'passwords presented' in the sense of the statement"],
     },
+    "C16": {
+        "quick": 400, "thorough": 20000,
+        "run": "^TestC16",
+        "rule": "rapid draws a sequence of 2..6 documents for one loader instance (YAML or JSON): a generated two-scope configuration and "
+                "successors derived by dropping prefix_deny/prefix_allow, shrinking or reordering the user and secret lists, "
+                "stripping a user's commands/services/groups/authenticator/accounter or nested match/set_values, shrinking scopes, "
+                "replacing option maps, adding filters, changing values; interleaved with documents that fail to parse, have no "
+                "users or no secrets. Oracles: (1) a document is accepted iff a fresh loader accepts it; (2) the value received from "
+                "Config() equals (nil == empty) what a fresh loader publishes for the same document; (3) JSON snapshots of every "
+                "earlier published value are unchanged after every later load; (4) a refused document publishes nothing; (5) live "
+                "variant (TestC16Live, 400 cases per process): the documents are fed to the unmarshaller of a running Loader (apply "
+                "barrier: same document pushed twice more) and Loader.Get for 7 probe addresses equals that of a stack freshly "
+                "started with the last accepted document. Non-trivial: a later valid document omits or shrinks something.",
+        "assumptions": COMMON_ASSUME + ["gopkg.in/yaml.v3 and encoding/json render the harness' own config structs faithfully"],
+    },
 }
